@@ -13,7 +13,7 @@ RULE = ("pairs of constraint texts with 1-3 '||' groups of 1-3 clauses (operator
         "(generic) / every subset of the mentioned extras, with and without an unseen one (extra); a share of operands are "
         "left folds of intersect/union/invert over parsed texts so that algebra results are fed back in; an in/not-in stream "
         "(substring-related values, correspondence only) and a malformed token-soup stream. Thorough: exhaustive over all "
-        "constraints with <=2 groups of <=2 clauses (clause multisets) over 3 values, all ordered pairs, both variants. "
+        "constraints with <=2 groups of <=2 clauses (the clauses of a group taken as a set) over 3 values, all ordered pairs, both variants. "
         "A case is non-trivial when both operands parse; distinct = distinct (variant, a, b).")
 ASSUMPTIONS = [
     "Python `re` (split/match, IGNORECASE), str.strip and set/frozenset hashing are trusted; the model's hand tokeniser is tied to them by the parse and malformed streams",
@@ -406,12 +406,12 @@ def correspondence(ctx: core.Ctx) -> None:
         v = "x" if x else "g"
         check_parse(ctx, x, CORPUS_PARSE, f"{v}-corpus-parse")
         check_pairs(ctx, x, CORPUS, f"{v}-corpus")
-        n = ctx.budget(6000, 60000)
+        n = ctx.budget(6000, 30000)
         pairs = [(gen_text(rnd), gen_text(rnd)) for _ in range(n)]
         check_pairs(ctx, x, pairs, f"{v}-gen")
-        chains = [(gen_operand(rnd, 0.5), gen_operand(rnd, 0.35)) for _ in range(ctx.budget(3000, 30000))]
+        chains = [(gen_operand(rnd, 0.5), gen_operand(rnd, 0.35)) for _ in range(ctx.budget(3000, 15000))]
         check_pairs(ctx, x, chains, f"{v}-chain")
-        soup = [gen_soup(rnd) for _ in range(ctx.budget(4000, 40000))]
+        soup = [gen_soup(rnd) for _ in range(ctx.budget(4000, 20000))]
         soup = [s for s in soup if core.valid_utf8(s) and SEP not in s]
         check_parse(ctx, x, soup, f"{v}-malformed")
         ok_soup = [s for s in soup if impl_parse(x, s, [])[0] == "ok"][: ctx.budget(300, 2000)]
@@ -430,9 +430,9 @@ def correspondence(ctx: core.Ctx) -> None:
 
 
 def universe() -> list[str]:
-    """all constraints with <=2 groups of <=2 clauses over 3 values (clauses of a group as a multiset)"""
+    """all constraints with <=2 groups of <=2 clauses over 3 values (the clauses of a group as a set)"""
     clauses = [op + v for v in ["a", "b", "c"] for op in ["", "!="]]
-    groups = list(clauses) + [c1 + "," + c2 for i, c1 in enumerate(clauses) for c2 in clauses[i:]]
+    groups = list(clauses) + [c1 + "," + c2 for i, c1 in enumerate(clauses) for c2 in clauses[i + 1:]]
     return groups + [g1 + " || " + g2 for g1 in groups for g2 in groups]
 
 
